@@ -15,7 +15,9 @@ type ProtocolSchema struct {
 
 func GetProtocolSchema(protocol *ProtocolDefinition, symbolTable SymbolTable) *ProtocolSchema {
 	schema := &ProtocolSchema{Protocol: removeComments(protocol)}
-	visitedTypeDefinitions := make(map[TypeDefinition]any)
+	// Keyed by qualified name: passes that rewrite a definition (e.g. a record with computed fields) can leave
+	// references to the definition as it was before, and the same definition must be listed only once.
+	visitedTypeDefinitions := make(map[string]any)
 	Visit(protocol, func(self Visitor, node Node) {
 		switch t := node.(type) {
 		case *ProtocolDefinition:
@@ -25,11 +27,12 @@ func GetProtocolSchema(protocol *ProtocolDefinition, symbolTable SymbolTable) *P
 		case *GenericTypeParameter:
 			break
 		case TypeDefinition:
-			if _, visited := visitedTypeDefinitions[t]; visited {
+			qualifiedName := t.GetDefinitionMeta().GetQualifiedName()
+			if _, visited := visitedTypeDefinitions[qualifiedName]; visited {
 				return
 			}
 
-			visitedTypeDefinitions[t] = nil
+			visitedTypeDefinitions[qualifiedName] = nil
 
 			// We don't want to include computed fields in the schema json
 			// since they are not used for (de)serialization.
